@@ -4,6 +4,8 @@ import (
 	"encoding/json"
 	"fmt"
 
+	sgbucket "github.com/couchbase/sg-bucket"
+
 	"verifharness/internal/rng"
 )
 
@@ -16,6 +18,7 @@ var jsonBodies = []string{
 	`{"n":-4,"t":"c","deep":{"a":{"b":{"c":1}}},"gap":{"y":null}}`,
 	`{"n":5.5,"t":"b","u":"ünï©ødé"}`,
 	`{"t":"nokey"}`,
+	`{"n":8,"t":"v","bell":"ring\u0007ring","del":"a\u007fb","astral":"tag\udb40\udc01end","sub":{"p":"v\u000bt\u0001","q":{"r":"\u001f"}}}`,
 	`{"n":6,"t":"c","big":9007199254740993,"dec":1.0000000000000000001,"sub":{"p":3,"q":{"r":12345678901234567890}}}`,
 }
 
@@ -36,6 +39,7 @@ var xattrValues = []string{
 	`{"seq":30,"s":"<tag> & \"q\"","nested":{"k":[1,2,{"z":null}]}}`,
 	`"just a string"`,
 	`12345`,
+	`1`, // {"u1":1} and {"_x":1} are eight bytes long
 	`[1,"two",{"three":3}]`,
 	`{"a":"x",   "b":  [ 1 , 2 ] }`, // whitespace that a re-marshal would normalise
 	`{"seq":4,"big":9007199254740993,"dec":0.1000000000000000055511151231257827}`, // numbers a float64 round trip would change
@@ -180,6 +184,13 @@ func (g *Gen) Make(kind string) Op {
 			o.Raw, o.Body = true, g.rawBody()
 		case 1:
 			o.AddOnly, o.Body = true, g.jsonBody()
+			// the flag is a bit: it must be honoured in combination with every other one
+			switch g.R.Intn(4) {
+			case 0:
+				o.Raw, o.Body = true, g.rawBody()
+			case 1:
+				o.Flags = rng.Pick(g.R, []int{int(sgbucket.Persist), int(sgbucket.Indexable), int(sgbucket.Persist | sgbucket.Indexable)})
+			}
 		case 2:
 			o.Append, o.Body = true, []byte("+app"+g.uniq())
 			o.CasClass = g.casClass([]int{1, 6, 2, 1})
@@ -336,7 +347,7 @@ func (g *Gen) Make(kind string) Op {
 	return o
 }
 
-var subdocPaths = []string{"gap.x", "gap.y.z", "n", "t", "newprop", "sub.p", "sub.q.r", "sub.newp", "sub.q.newr", "tags.x", "n.x", "missing.x", "deep.a.b.c", "deep.a.b.d", "sub"}
+var subdocPaths = []string{"gap.x", "gap.y.z", "n", "t", "newprop", "sub.p", "sub.q.r", "sub.newp", "sub.q.newr", "tags.x", "n.x", "missing.x", "deep.a.b.c", "deep.a.b.d", "sub", "bell", "del", "astral"}
 var subdocValues = []string{`9007199254740993`, `1`, `"str"`, `{"k":"v"}`, `[1,2]`, `true`, `{"p":9,"z":{"y":1}}`}
 
 // xblob builds the xattr blob handed to SetWithMeta/DeleteWithMeta. rosmar stores that blob verbatim and
@@ -461,6 +472,9 @@ func Variants() []Op {
 		add(Op{Kind: KWriteCas, Body: jb, CasClass: cc, Exp: farExp + 3})
 		add(Op{Kind: KWriteCas, Body: rb, Raw: true, CasClass: cc})
 		add(Op{Kind: KWriteCas, Body: jb, AddOnly: true, CasClass: cc})
+		add(Op{Kind: KWriteCas, Body: rb, AddOnly: true, Raw: true, CasClass: cc})
+		add(Op{Kind: KWriteCas, Body: jb, AddOnly: true, Flags: int(sgbucket.Persist), CasClass: cc})
+		add(Op{Kind: KWriteCas, Body: jb, Flags: int(sgbucket.Indexable), CasClass: cc})
 		add(Op{Kind: KWriteCas, Body: []byte("+tail"), Append: true, CasClass: cc})
 		add(Op{Kind: KRemove, CasClass: cc})
 		add(Op{Kind: KRemoveX, CasClass: cc, XDel: []string{"_sync"}})
